@@ -283,10 +283,6 @@ def run(cx):
     pair_states, seq_states = out["spec"]
     cases_u = out["U"]
 
-    vac = [k for k, v in stats["antecedents"].items() if v == 0]
-    if vac:
-        raise vlib.Inconclusive("vacuous laws on U: no instance of %s" % vac)
-
     # ---- verdicts: classify by known finding, reproduce, report (one violation per signature)
     known = cx.known_findings()
     seen_sig = {}
@@ -317,6 +313,12 @@ def run(cx):
                       "cases": [f["by_id"][i] for i in f["ids"]][:9],
                       "more": [g["detail"][:300] for g in fs[1:8]],
                       "universe_cmd": "values universe -kind %s -seed %d" % (f["leg"].name, cx.seed)})
+
+    # vacuity guard (after the verdicts: a law's hypothesis that no observed pair meets can itself be the symptom of
+    # a violation, e.g. equal values that no longer share a set slot)
+    vac = [k for k, v in stats["antecedents"].items() if v == 0]
+    if vac and not cx.violations:
+        raise vlib.Inconclusive("vacuous laws on U: no instance of %s" % vac)
 
     big = {"i:9007199254740993", "f:4340000000000000", "l[i:9007199254740993]", "l[f:4340000000000000]"}
     picks = [c for c in cases_u if c["k"] == "pair" and c["a"] != c["b"]
